@@ -4,7 +4,8 @@
   Dumps, for every definition / constructor in the `Bnum.*` namespaces of the hand model, its defining module,
   binder list and result type, one TAB-separated line per constant:
 
-      <name> TAB <module> TAB <binder>;<binder>;... TAB <result type>        binder = <(|{|[><name>:<type>
+      <name> TAB <module> TAB <binder>;<binder>;... TAB <result type> TAB <Bnum constants used by the body> TAB def|proj|ctor|opaque
+                                                                                   binder = <(|{|[><name>:<type>
 
   Run through `python3 gen/translate.py --dump-sigs` (which prepends the `import Bnum.Model.*` lines and
   rewrites gen/translate_sigs.json).  The translator only uses this table to know (a) which Lean constants exist,
@@ -36,6 +37,13 @@ run_cmd liftTermElabM do
           | .implicit => "{" | .instImplicit => "[" | .strictImplicit => "{" | _ => "("
         ps := ps.push s!"{bi}{d.userName.eraseMacroScopes}:{(toString t).replace "\n" " "}"
       let b ← ppExpr body
-      pure s!"{n}\t{modName}\t{String.intercalate ";" ps.toList}\t{(toString b).replace "\n" " "}"
+      let used : List String := match ci with
+        | .defnInfo d => (d.value.getUsedConstants.toList.filter fun c =>
+            (`Bnum).isPrefixOf c && !c.isInternalDetail && c != n).map toString
+        | _ => []
+      let kind : String := match ci with
+        | .defnInfo _ => if (env.getProjectionFnInfo? n).isSome then "proj" else "def"
+        | .ctorInfo _ => "ctor" | _ => "opaque"
+      pure s!"{n}\t{modName}\t{String.intercalate ";" ps.toList}\t{(toString b).replace "\n" " "}\t{String.intercalate ";" used}\t{kind}"
     out := out.push s
   IO.println (String.intercalate "\n" out.toList)
